@@ -197,3 +197,23 @@ Fixpoint is_runF (c : circuit) (sio : list (string * string)) (st : val) (ins : 
   | O => agrees (free_nodes c) x (step_in sio None st (ins 0))
   | S j => ∃ x', is_runF c sio st ins j x' ∧ agrees (free_nodes c) x (step_in sio (Some x') st (ins t))
   end.
+
+(* ---- guards of the step from the stripped circuit to the flop circuit (Proofs/FlopLink.v); all decidable ----
+   flop_names_ok: instance and pin names are dot-free, the flattened names <inst>_<pin> are unambiguous and are not node names of
+   the circuit (sequential_unroll deletes pins BY THAT NAME, also for ignored pins), every bb_input / bb_output typed node is a pin
+   of a registered instance.  flop_wiring_ok: the only blackbox pins that are read by a node are Q pins (bb_input pins never have
+   fan-out in a circuit built through the API; a loaded non-Q output pin leaves an undriven buffer behind, see docs/C09.md). *)
+Definition bb_pinset (bb : bbdef) : gset string := bb_in bb ∪ bb_out bb.
+Definition all_pins (C : Circuit) : gset string :=
+  list_to_set (ibb ← map_to_list (c_bbs C); (λ p, pin ibb.1 p) <$> elements (bb_pinset ibb.2)).
+Definition q_pins (C : Circuit) (q : string) : gset string := list_to_set ((λ b, pin b q) <$> elements (dom (c_bbs C))).
+Definition flop_names_ok (C : Circuit) : Prop :=
+  map_Forall (λ b bb, str_has_dot b = false ∧
+    set_Forall (λ p, str_has_dot p = false ∧ pre b p ∉ dom (c_g C)) (bb_pinset bb) ∧
+    map_Forall (λ b' bb', set_Forall (λ p, set_Forall (λ p', pre b p = pre b' p' → b = b' ∧ p = p') (bb_pinset bb')) (bb_pinset bb)) (c_bbs C))
+  (c_bbs C) ∧
+  set_Forall (λ n, n ∈ all_pins C) (bb_pins (c_g C)).
+Definition flop_wiring_ok (C : Circuit) (q : string) : Prop :=
+  map_Forall (λ _ i, set_Forall (λ f, f ∈ bb_pins (c_g C) → f ∈ q_pins C q) (n_fi i)) (c_g C).
+Global Instance flop_names_ok_dec C : Decision (flop_names_ok C). Proof. unfold flop_names_ok. apply _. Defined.
+Global Instance flop_wiring_ok_dec C q : Decision (flop_wiring_ok C q). Proof. unfold flop_wiring_ok. apply _. Defined.
